@@ -58,11 +58,11 @@ int32_t psRsaParseAsnPubKey(psPool_t *pool,
     {
         goto L_FAIL;
     }
-    if (*p++ != 0)
+    if (keylen < 1)
     {
         goto L_FAIL;
     }
-    if (keylen < 1)
+    if (*p++ != 0)
     {
         goto L_FAIL;
     }
@@ -77,7 +77,8 @@ int32_t psRsaParseAsnPubKey(psPool_t *pool,
     psSha1Final(&dc.u.sha1, sha1KeyHash);
 # endif
 
-    if (getAsnSequence(&p, keylen, &seqlen) < 0)
+    /* (keylen counts the unused-bits octet that was just consumed) */
+    if (getAsnSequence(&p, keylen - 1, &seqlen) < 0)
     {
         goto L_FAIL;
     }
